@@ -8,6 +8,23 @@ PROGRAM = r"""
 :- use_module(library(lists)).
 p(2, two). p(36028797018963968, big). p(a, atom). p(1.5, float). p(-36028797018963969, negbig). p(7 , seven). p("s", str). p(f(x), struct). p(100000000000000000000, huge).
 q(100000000000000000000, h1). q(100000000000000000001, h2). q(3, three).
+:- dynamic(d/2).
+% dynamic predicates: for each kind of first argument, build an index (two distinct keys), add a third key,
+% retract it, call it indexed, re-assert under the same key; also a second clause under an existing key
+keys(struct, [f(1), g(1), h(1)]). keys(const, [a, b, c]). keys(int, [1, 2, 3]). keys(big, [36028797018963968, 36028797018963969, 36028797018963970]).
+keys(mixed, [a, f(1), [x]]). keys(list, [[p], a, [q]]).
+dyn(Kind, Mode) :-
+    keys(Kind, [K1, K2, K3]), retractall(d(_, _)),
+    add(Mode, d(K1, 1)), add(Mode, d(K2, 2)), add(Mode, d(K3, 3)),
+    chk(Kind-Mode-after_add, K3, [3]),
+    retract(d(K3, 3)), chk(Kind-Mode-after_retract, K3, []),
+    add(Mode, d(K3, 4)), chk(Kind-Mode-after_reassert, K3, [4]),
+    add(Mode, d(K1, 5)), ( Mode == z -> E1 = [1, 5] ; E1 = [5, 1] ), chk(Kind-Mode-second_clause, K1, E1),
+    retract(d(K1, 1)), chk(Kind-Mode-first_retracted, K1, [5]),
+    retract(d(K2, 2)), chk(Kind-Mode-k2_gone, K2, []), chk(Kind-Mode-k3_still, K3, [4]).
+add(z, C) :- assertz(C).
+add(a, C) :- asserta(C).
+chk(Name, K, Expected) :- findall(V, d(K, V), Vs), ( Vs == Expected -> true ; format("MISMATCH ~w got ~q expected ~q~n", [dynamic(Name), Vs, Expected]) ).
 t(Name, Goal, Expected) :- findall(R, call(Goal, R), Rs), ( Rs == Expected -> true ; format("MISMATCH ~w got ~q expected ~q~n", [Name, Rs, Expected]) ).
 main :-
     t(lit_small, p(2), [two]), t(lit_big, p(36028797018963968), [big]), t(lit_negbig, p(-36028797018963969), [negbig]), t(lit_huge, p(100000000000000000000), [huge]),
@@ -20,6 +37,7 @@ main :-
     X6 is 3.0 / 2, t(computed_float, p(X6), [float]),
     X7 is 2^70 - 2^70 + 7, t(computed_shrunk_7, p(X7), [seven]),
     atom_length(abcdefg, X8), t(atom_length_7, p(X8), [seven]),
+    ( member(Kind, [struct, const, int, big, mixed, list]), member(Mode, [z, a]), ( catch(dyn(Kind, Mode), E, (format("MISMATCH ~w got ~q expected ~q~n", [dynamic(Kind-Mode), E, no_error]))) -> true ; format("MISMATCH ~w got ~q expected ~q~n", [dynamic(Kind-Mode), failed, success]) ), fail ; true ),
     halt.
 :- initialization(main).
 """
@@ -35,7 +53,7 @@ def replay_all(repo, by_ob, scratch, log):
     p = subprocess.run([binary, "-f", "--no-add-history", path], capture_output=True, text=True, timeout=300, stdin=subprocess.DEVNULL)
     fails = []
     for line in p.stdout.split("\n"):
-        m = re.match(r"MISMATCH (\w+) got (.*) expected (.*)$", line)
+        m = re.match(r"MISMATCH (\S+) got (.*) expected (.*)$", line)
         if m:
             fails.append({"goal": m.group(1), "got": ["v", m.group(2)], "expected": ["v", m.group(3)], "op": "index", "a": None, "b": None})
     log.append("indexed-call replay: %d mismatches" % len(fails))
